@@ -413,6 +413,10 @@ def family(rec):
         o2 = cppref.run(rec['src'], stale_paint=True)
         if o2.status == 'ok' and o2.tokens == rec['obs']:
             return 'wrong-expansion/hide-flag-painted-on-stored-body-tokens'
+    if rec['exp'] == 'reject' and rec['reason'] == 'unterminated-args' and 'unspecified-nesting' in rec['flags'] and st == 0:
+        # an invocation that starts inside a (pre-expanded) argument and is completed by tokens after it: cpp refuses it
+        # (6.10.3.1: no other tokens are available), cproc completes it; the standard leaves such nesting unspecified (6.10.3.4p4)
+        return None
     if rec['exp'] == 'reject':
         return 'accept-invalid/' + rec['reason']
     if st == 1:
@@ -693,9 +697,25 @@ def m3_stringify_and_plain():
                     yield '#define f(a) %s\n%sf(%s)\n' % (body, gd, ' '.join(w))
 
 
+def m3_opened_by_other_macro():
+    """an invocation whose '(' (and first tokens) come from another macro's replacement list that ends before the
+    invocation does; the rest of the argument list contains macros whose expansion has commas, parentheses or is empty"""
+    defs = ('#define W 0,1\n#define E\n#define P (2)\n#define Q )\n'
+            '#define f(a, ...) <a|__VA_ARGS__>\n#define f1(a) [a]\n#define s(a, ...) #a a __VA_ARGS__\n#define f2(a, b) {a;b}\n')
+    openers = ('#define H f(x\n', '#define H f1(~\n', '#define H s(p\n', '#define H f2(\n', '#define H f1\n', '#define H f(\n', '#define H f2(y,\n')
+    toks = ('W', 'E', 'P', 'x', ',', ')', 'H')
+    for op in openers:
+        for n in range(1, 5):
+            for w in itertools.product(toks, repeat=n):
+                if ')' not in w and 'Q' not in w:
+                    continue
+                yield defs + op + 'H ' + ' '.join(w) + '\n'
+
+
 def m3_sources(full):
     out = []
     out.extend(m3_stringify_and_plain())
+    out.extend(m3_opened_by_other_macro())
     for defs, text in ((EX3_DEFS, EX3_TEXT), (EX4_DEFS, EX4_TEXT), (EX7_DEFS, EX7_TEXT)):
         out.extend(perturbations(defs, text))
     out.extend(EX6)
